@@ -40,6 +40,8 @@ BITS = {"u8": 8, "i8": 8, "u16": 16, "i16": 16, "u32": 32, "i32": 32, "u64": 64,
 
 PRELUDE = r'''
 use core::marker::PhantomData;
+// the type generic enums are instantiated with: it converts from nothing (the impl is for EVERY instantiation)
+#[derive(Clone, Copy)] pub struct Nc;
 pub fn emit(k: &str, casts: &[(usize, i128)], mism: &[(i128, i64, i64)], checked: u64, errpayload_bad: u64) {
     let c: Vec<String> = casts.iter().map(|(i, v)| format!("[{},\"{}\"]", i, v)).collect();
     let m: Vec<String> = mism.iter().take(8).map(|(n, e, g)| format!("[\"{}\",{},{}]", n, e, g)).collect();
@@ -72,10 +74,10 @@ def render(c, key, gen):
         # a const parameter need not be used: the enum keeps its shape (still field-less when it was)
         gdecl, guse = "<const N: usize>", "<3>"
     elif gen == "type":
-        gdecl, guse = "<T>", "<u16>"
+        gdecl, guse = "<T>", "<Nc>"
         phantom = "PhantomData<T>"
     elif gen == "where":
-        gdecl, guse = "<T> where T: Copy", "<u16>"
+        gdecl, guse = "<T> where T: Copy", "<Nc>"
         phantom = "PhantomData<T>"
     decl = []
     ctor, pats = [], []
